@@ -135,6 +135,7 @@ def run(ctx):
     ctx.floor('returned-table constructions', n_ret, 2)
     check_gbp_sets(ctx)
     check_saturated_sets(ctx)
+    check_skipped_messages(ctx)
     check_call_local_caches(ctx, [gbp, lbp, cm, repo.nfunc(RG, 'RegionGraph.hazan_peng_shashua')])
     ctx.floor('exp sites', sum(1 for o in ctx.obligations if o.rule == 'exp-normalised'), 2)
 
@@ -549,6 +550,39 @@ def check_gbp_sets(ctx):
     ctx.ob('gbp-message-sets', fi, Nd[4], Nd[3] != Dd[3],
            'N is built around the sending region and D around the receiving region of a message (different index positions)',
            construct='centres of N and D')
+
+
+def check_skipped_messages(ctx):
+    """loopy / convergent BP: a sweep that SKIPS a node leaves that node's outgoing messages at their previous value (the initial zeros).
+    Harmless for a variable with a single factor - its message to that factor is the empty sum, zero - but not for a factor over a single
+    attribute, whose message to its variable is its own (normalised) potential."""
+    n = 0
+    for q in ('FactorGraph.loopy_belief_propagation', 'FactorGraph.convergent_belief_propagation'):
+        if not ctx.repo.has_func(FG, q):
+            continue
+        fi = ctx.repo.func(FG, q)
+        for lp in [x for x in ast.walk(fi.node) if isinstance(x, ast.For) and isinstance(x.target, ast.Name)]:
+            it = U(lp.iter).replace(' ', '')
+            if it not in ('self.domain', 'self.domain.attrs', 'self.cliques'):
+                continue
+            for st in lp.body:
+                if isinstance(st, ast.If) and not st.orelse and len(st.body) == 1 and isinstance(st.body[0], ast.Continue):
+                    t = U(st.test).replace(' ', '')
+                    x = lp.target.id
+                    n += 1
+                    if it == 'self.cliques':
+                        ctx.ob('skipped-messages', fi, st, False, 'the factor-to-variable sweep skips the factors with `%s`: their messages stay at the initial zeros, '
+                               'although the message of a factor is (a marginal of) its potential - for a single-attribute factor the potential itself' % U(st.test),
+                               construct='skip in the factor sweep')
+                        continue
+                    facs = [a.targets[0].id for a in lp.body if isinstance(a, ast.Assign) and len(a.targets) == 1 and isinstance(a.targets[0], ast.Name)
+                            and U(a.value).replace(' ', '') in ('[clforclinself.cliquesif%sincl]' % x, 'self.neighbors[%s]' % x, 'self.neighbors.get(%s,[])' % x)]
+                    ok = any(t in ('len(%s)==1' % f, 'len(%s)<=1' % f, 'len(%s)<2' % f) for f in facs)
+                    if not ok:
+                        raise AnalysisError('%s: the variable sweep skips nodes under `%s`, which is in no recognised form' % (q, U(st.test)[:60]))
+                    ctx.ob('skipped-messages', fi, st, True, 'a variable with a single factor sends that factor the empty sum: skipping it leaves the zero message in place',
+                           construct='skip in the variable sweep')
+    ctx.count('skipped nodes in the BP sweeps', n)
 
 
 def check_saturated_sets(ctx):
